@@ -1,6 +1,6 @@
 (* Property C08 — only awaited events are accepted, each once; rejected events change nothing.
    Statements proved in RefC08.v (reference semantics, API layer), nothing else. *)
-From PFDL Require Import RefSem RunCase Monitors RefC08.
+From PFDL Require Import RefSem RunCase Monitors RefC08 NetModel NetRun NetC08.
 
 (* an event that is not an awaited completion is reported False and changes nothing at all
    (the state after the call is the state before it, up to the discarded log of the previous
@@ -56,3 +56,36 @@ Theorem C08_accepted_at_most_once :
     run_script orc imm fuel body sched0 cs = Ok tr -> once_run cs tr.
 Proof. intros orc imm body fuel cs tr. exact (accepted_at_most_once orc imm body fuel cs sched0 tr AwInv_sched0). Qed.
 Print Assumptions C08_accepted_at_most_once.
+
+(* ---- the same gate on the FAITHFUL model of Scheduler.fire_event / start (NetModel.v) ---- *)
+Theorem C08_net_not_awaited_changes_nothing :
+  forall tasks env fuel ev (s : NS),
+    existsb (event_eqb ev) (ns_awaited s) = false ->
+    sched_fire_event tasks env (S fuel) ev s = Ok (false, s).
+Proof. exact net_reject_noop. Qed.
+Print Assumptions C08_net_not_awaited_changes_nothing.
+
+Theorem C08_net_junk_changes_nothing :
+  forall tasks env fuel (s : NS), net_api_call tasks env (S fuel) s AJunk = Ok (false, cleared s).
+Proof. exact net_api_reject_junk. Qed.
+Print Assumptions C08_net_junk_changes_nothing.
+
+Theorem C08_net_start_again_changes_nothing :
+  forall tasks env fuel (s : NS),
+    existsb (event_eqb EvStart) (ns_awaited s) = false ->
+    net_api_call tasks env fuel s AStart = Ok (true, cleared s).
+Proof. exact net_api_start_again. Qed.
+Print Assumptions C08_net_start_again_changes_nothing.
+
+Theorem C08_net_unawaited_before_forwarding :
+  forall tasks env f ev s l,
+    existsb (event_eqb ev) (ns_awaited s) = true ->
+    remove_first (event_eqb ev) (ns_awaited s) = Some l ->
+    sched_fire_event tasks env (S f) ev s =
+    match logic_fire_event tasks env f ev (s <| ns_awaited := l |>) with
+    | Ok (true, s') => Ok (true, s')
+    | Ok (false, s') => Ok (false, s' <| ns_awaited := ns_awaited s' ++ [ev] |>)
+    | Fuel => Fuel | Exn k => Exn k | Unsupported => Unsupported
+    end.
+Proof. exact net_accept_unawaits_first. Qed.
+Print Assumptions C08_net_unawaited_before_forwarding.
